@@ -365,7 +365,7 @@ def run(ck):
     ck.note("model (mutex held across the flush): %d distinct (final state, wait situations) %s; negative control (Flush without the mutex): "
             "AllPersistedOnce refuted by TLC" % (sum(pred.values()), dict(pred)))
     # 2. B3: distinct final states' schedules on the real recorder, then seeded random gate schedules
-    nb, ng = (50, 130) if q else (200, 1500)
+    nb, ng = (50, 130) if q else (200, 1000)
     for k, cs in enumerate(cases):
         tabs = sorted({s["t"] for c in cs for s in c["sched"] if s["l"] == "ins"})
         chosen = pick(ck, [c for c in cs if c["outcome"] != "ok"], nb) + pick(ck, [c for c in cs if c["outcome"] == "ok"], ng)
@@ -373,7 +373,7 @@ def run(ck):
         jobs.append(pool.submit(gated, ck, "tlc-schedules" + (str(k + 1) if k else ""),
                                 [dict(name="tlc-%d" % i, batch=c["batch"], sched=c["sched"], outcome=c["outcome"]) for i, c in enumerate(chosen)],
                                 tabs, 0, 4 if q else 6, retry=0 if len(tabs) == 1 else 12))
-    jobs.append(pool.submit(gated, ck, "random-schedules", [], ["t1", "t2"], 100 if q else 1500, 2 if q else 6))
+    jobs.append(pool.submit(gated, ck, "random-schedules", [], ["t1", "t2"], 100 if q else 1000, 2 if q else 6))
     errs = []
     for j in jobs:
         try:
